@@ -900,6 +900,11 @@ func (dkgmn *DKGMinerNodes) reduceNodes(
 			}
 		}
 		simpleNodes.reduce(gn.MaxN, gn.XPercent, pmbrss, pmbnp)
+		// the selection must not have dropped every miner of the previous set
+		if !gn.hasPrevDKGMiner(simpleNodes, balances) {
+			return fmt.Errorf("missing miner from previous set after reduce, n: %d, list: %s",
+				len(simpleNodes), simpleNodesKeys(simpleNodes))
+		}
 		dkgmn.SimpleNodes = simpleNodes
 	}
 
